@@ -443,3 +443,11 @@ Proof.
     destruct (default_layout_pf name l q) as (_ & E & _). fold c in E. rewrite E.
     apply existsb_exists in Hh. rewrite Hh. exact Ip.
 Qed.
+
+(* ---- reconnect / disconnect ---- *)
+Lemma reconnect_exact_pf : forall c,
+  handle_reconnect c (Some (served_ownership c)) =
+    (match reset_event (owned_res c) (owned_acc c) with Some p => [EReset p] | None => [] end) ++ [EOnReconnect] /\
+  handle_disconnect = [EOnDisconnect] /\
+  handle_reconnect c None = [ERefused; EOnReconnect].
+Proof. intros c. repeat split. Qed.
